@@ -70,6 +70,50 @@ let mk_zframe enc maxin (table : bytes array) =
                                    (if int_of_n cap <= int_of_n f_scratch then "S" else "H") in
           ((ret, String.concat "" (List.map (fun m -> show_msg [m]) outs), obs ^ "/" ^ b01 r'.fr_err), pipe')) }
 
+(* templating gateway: the Message-level functions are Section variables of the Coq model; here they are
+   instantiated from the table the "describe" pre-pass of the harness produced for the Messages of the case
+   (trivial?/what/TemplateHashCode64/template size/TemplatedFlatten bytes/shape), see checks/c03.py *)
+type tmsg = { t_flat : bytes; t_triv : bool; t_what : n; t_id : n; t_tsize : n; t_tflat : bytes; t_shape : string }
+type ttpl = { p_id : n; p_size : n; p_shape : string }
+let rec n_of_decimal (s : string) : n =   (* 64-bit ids do not fit an OCaml int *)
+  let rec go acc i = if i >= String.length s then acc else
+    go (N.add (N.mul acc (n_of_int 10)) (n_of_int (Char.code s.[i] - 48))) (i+1) in go N0 0
+let rec decimal_of_n (x : n) : string =
+  match x with N0 -> "0" | _ ->
+    let (q, r) = N.div_eucl x (n_of_int 10) in
+    (if q = N0 then "" else decimal_of_n q) ^ string_of_int (int_of_n r)
+let mk_tmpl maxin maxcache (table : tmsg list) =
+  let le32i w = List.map n_of_int [w land 255; (w lsr 8) land 255; (w lsr 16) land 255; (w lsr 24) land 255] in
+  let what_only w = { t_flat = le32i 1347235888 @ le32i (int_of_n w) @ le32i 0; t_triv = true; t_what = w; t_id = n_of_int 1;
+                      t_tsize = n_of_int 12; t_tflat = le32i (int_of_n w); t_shape = "" } in
+  let m_of_what w = match List.find_opt (fun m -> m.t_triv && m.t_what = w) table with Some m -> m | None -> what_only w in
+  let m_tmpl m = { p_id = m.t_id; p_size = m.t_tsize; p_shape = m.t_shape } in
+  let m_unflat b = List.find_opt (fun m -> m.t_flat = b) table in
+  let m_tflat t m = if t.p_shape = m.t_shape then m.t_tflat else [] in
+  let m_tunflat t b = List.find_opt (fun m -> m.t_shape = t.p_shape && m.t_tflat = b) table in
+  let describes t m = (t.p_shape = m.t_shape) in
+  let queue_ix = ref 0 in
+  let s = ref (fs_init cache0) and r = ref (fr_init cache0) in
+  let cache_obs (c : (n * ttpl) list * n) =
+    String.concat "." (List.map (fun (k, _) -> decimal_of_n k) (fst c)) ^ "/" ^ decimal_of_n (snd c) in
+  { q = (fun _ -> let m = List.nth table !queue_ix in incr queue_ix; s := fs_queue !s m);
+    o = (fun maxb scr ->
+          let (s', w) = tm_do_output (fun m -> m.t_triv) (fun m -> m.t_what) m_of_what (fun m -> m.t_id) m_tmpl (fun t -> t.p_size)
+                          (fun m -> m.t_flat) m_tflat describes maxcache !s maxb scr in
+          s := s';
+          (w, Printf.sprintf "%d/%s/%d/%s" (List.length s'.fs_q)
+                (match s'.fs_buf with None -> "-" | Some b -> string_of_int (List.length b)) (int_of_n s'.fs_off) (cache_obs s'.fs_cs)));
+    i = (fun maxb scr pipe ->
+          let ((r', outs), pipe') = tm_do_input m_of_what m_tmpl (fun t -> t.p_id) (fun t -> t.p_size) m_unflat m_tunflat maxcache maxin !r maxb scr pipe in
+          r := r';
+          let consumed = List.length pipe - List.length pipe' in
+          let ret = if consumed = 0 && r'.fr_err then "E" else string_of_int consumed in
+          let obs = match r'.fr_buf with
+            | None -> "-/0/-"
+            | Some (cap, got) -> Printf.sprintf "%d/%d/%s" (int_of_n cap) (List.length got)
+                                   (if int_of_n cap <= int_of_n f_scratch then "S" else "H") in
+          ((ret, String.concat "" (List.map (fun m -> show_msg [m.t_flat]) outs), obs ^ "/" ^ b01 r'.fr_err ^ "/" ^ cache_obs r'.fr_cr), pipe')) }
+
 let mk_text eol =
   let s = ref ts_init and r = ref tr_init in
   { q = (fun a -> s := ts_queue !s (items a));
@@ -119,10 +163,25 @@ let () =
       let head = String.split_on_char ':' (String.sub line 0 p) in
       let body = String.sub line (p+1) (String.length line - p - 1) in
       let nth l i d = match List.nth_opt l i with Some x -> x | None -> d in
-      if (List.hd head).[0] = 'K' || List.hd head = "P" then
+      let h0 = List.hd head in
+      if h0.[0] = 'K' || h0.[0] = 'X' || h0.[0] = 'W' || h0 = "MC" || h0 = "CM" || h0 = "UC" || h0 = "CU"
+         || (h0 = "P" && List.length head < 5) then
         Printf.printf "%d oracle-only\n" k   (* not modelled: the harness evaluates the end-to-end oracle only *)
       else
       let m = match List.hd head with
+        | "P" ->
+            (* P:0:<maxin>:<maxcache>:<table>, table entries "triv/what/tid/tsize/tflathex/shape" in q order; the flat
+               bytes of entry i are those of the i-th q op *)
+            let qhex = List.filter_map (fun o -> match String.split_on_char ':' o with "q" :: h :: _ -> Some h | _ -> None)
+                         (String.split_on_char ';' body) in
+            let ents = List.filter (fun e -> e <> "") (String.split_on_char ',' (nth head 4 "")) in
+            let table = List.map2 (fun e h ->
+                match String.split_on_char '/' e with
+                | [tr; wh; id; ts; tf; sh] ->
+                    { t_flat = bytes_of_hex h; t_triv = (tr = "1"); t_what = n_of_decimal wh; t_id = n_of_decimal id;
+                      t_tsize = n_of_decimal ts; t_tflat = bytes_of_hex tf; t_shape = sh }
+                | _ -> failwith ("bad table entry " ^ e)) ents qhex in
+            mk_tmpl (n_of_int (int_of_string (nth head 2 "4294967295"))) (n_of_int (int_of_string (nth head 3 "1048576"))) table
         | "F" when nth head 1 "0" <> "0" ->
             let tbl = nth head 3 "" in
             mk_zframe (int_of_string (nth head 1 "0")) (n_of_int (int_of_string (nth head 2 "4294967295")))
